@@ -4,6 +4,7 @@
 import HtpModel.Conn.Res
 import HtpModel.Lemmas.Flags
 import HtpModel.Lemmas.Conn
+import HtpModel.Pinned.Eq
 
 namespace Htp.C11
 open Htp.Conn Htp.Gen Htp.Parse
@@ -273,5 +274,9 @@ theorem C11_res_cl_repeated (c : Conn) (uid : Nat) (t : Tx) (cl : Header) (te ct
   · split
     · exact hasSmug_modTx (hasSmug_txs h2 _ rfl) _ (by intro x; rfl) (by intro x h; exact h)
     · exact hasSmug_txs h2 _ rfl
+
+/-- **C11 (the constants are the reviewed ones)**: every constant the translator reads from the current source - among them the indicator flag values -
+    equals its reviewed snapshot (lean/HtpModel/Pinned); the model follows a regenerated constant, so this is what notices a changed one -/
+theorem C11_constants_pinned : Htp.Pinned.ConstantsPinned := Htp.Pinned.constants_pinned
 
 end Htp.C11
